@@ -45,6 +45,10 @@ def req_tok(v, lines, start=(1, 0), indents=None, first=True):
                                             len(lines), ' '.join(enc_str(l) for l in lines))
 
 
+def req_resume(v, lines, start=(1, 0), indents=None, first=True):
+    return 'resume' + req_tok(v, lines, start, indents, first)[3:]
+
+
 def req_text(v, recover, code, start_rule=0):
     return 'text %s %d %d %s' % (vn(v), int(recover), start_rule, enc_str(code))
 
